@@ -52,6 +52,9 @@ type Base struct {
 	// handled: true means "interpret its body in the caller's context" (helpers that a
 	// refactoring extracted must not blind a rule).  Recursion and depth are bounded.
 	AutoInline func(fi *FuncInfo) bool
+	// NoAutoInline switches the default off (unexported helpers of the explored function's own
+	// package are interpreted in the caller's context unless a hook handled the call).
+	autoDefault bool
 	exprs  []ast.Expr
 	exprID map[ast.Expr]int
 }
@@ -1449,7 +1452,7 @@ func (b *Base) call(x *Exec, call *ast.CallExpr, lhs []ast.Expr, s St) ([]St, bo
 	}
 	if b.AutoInline != nil && x.Depth < 3 {
 		if f := Callee(x.Fn.Info, call); f != nil {
-			if fi := x.Fn.P.FuncOf(f); fi != nil && fi.Decl.Body != nil && b.AutoInline(fi) {
+			if fi := x.Fn.P.FuncOf(f); fi != nil && fi.Decl.Body != nil && b.autoInline(x, fi) {
 				callee := x.Fn.P.FlowOf(fi)
 				for y := x; y != nil; y = y.Parent {
 					if y.Fn == callee {
@@ -1461,6 +1464,33 @@ func (b *Base) call(x *Exec, call *ast.CallExpr, lhs []ast.Expr, s St) ([]St, bo
 		}
 	}
 	return nil, false
+}
+
+// autoInline: the rule's own predicate, else "unexported function or method of the package of
+// the function being explored".
+func (b *Base) autoInline(x *Exec, fi *FuncInfo) bool {
+	if b.AutoInline == nil {
+		return false
+	}
+	if !b.autoDefault {
+		return b.AutoInline(fi)
+	}
+	root := x
+	for root.Parent != nil {
+		root = root.Parent
+	}
+	if fi.Pkg == nil || fi.Pkg.TypesInfo != root.Fn.Info {
+		return false
+	}
+	return !ast.IsExported(fi.Decl.Name.Name)
+}
+
+// InlineOwnHelpers makes the base interpret the unexported helpers of the explored function's
+// own package in the caller's context.
+func (b *Base) InlineOwnHelpers() *Base {
+	b.AutoInline = func(*FuncInfo) bool { return true }
+	b.autoDefault = true
+	return b
 }
 
 // localHelpers returns an AutoInline predicate: the unexported functions and
